@@ -15,7 +15,7 @@ import copy
 from traits.api import (
     HasTraits, Int, Float, Str, Any, List, Instance, Property, DelegatesTo, PrototypedFrom,
     TraitType, TraitError, Enum, Tuple, Either, Event, Callable, Supports, AdaptsTo, Type, This,
-    Complex, CFloat, Bytes, Bool, Constant, Map, Interface, provides, Adapter, register_factory,
+    Complex, CFloat, Bytes, Bool, Constant, Map, Interface, provides, Adapter, register_factory, Expression,
     push_exception_handler, pop_exception_handler, Undefined,
 )
 from traits.adaptation.api import AdaptationManager, set_global_adaptation_manager, get_global_adaptation_manager
@@ -171,6 +171,27 @@ class P2(HasTraits):
     pi = Int
     deeper = Instance(Leaf2, ())
     dd = DelegatesTo("deeper", prefix="px")
+
+
+class StrSub(str):
+    """mortal, weak-referenceable string (a valid Expression source)"""
+
+
+class H3(HasTraits):
+    """traits that store the ORIGINAL value while their validator returns another object
+    (AdaptsTo: the adapter; Expression: the compiled code), with CALLABLE defaults"""
+    ada = AdaptsTo(IFoo)
+    expr = Expression
+    sup = Supports(IFoo)
+
+    def _ada_default(self):
+        return self.__dict__["src"]
+
+    def _expr_default(self):
+        return self.__dict__["src"]
+
+    def _sup_default(self):
+        return self.__dict__["src"]
 
 
 class H2(HasTraits):
@@ -411,6 +432,34 @@ def make(RefObjFactories):
         h.trait_property_changed("p1", None, s)
         h.trait_property_changed("nope", s, None)
     ex.append(("trait_property_changed2", new, property_changed, o2))
+
+    # callable defaults of traits that keep the original value
+    def dyn_default(name):
+        def op(h, s):
+            h.__dict__["src"] = s
+            for f in (lambda: getattr(h, name), lambda: h.trait(name).default_value_for(h, name),
+                      lambda: delattr(h, name), lambda: getattr(h, name)):
+                try:
+                    f()
+                except Exception as e:
+                    e.__traceback__ = None
+            h.__dict__.pop(name, None)
+            h.__dict__.pop(name + "_", None)
+            h.__dict__.pop("src", None)
+        return op
+
+    def new3():
+        h = H3()
+        h.on_trait_change(lambda: None, "ada")
+        return h
+
+    def strsub(k):
+        return StrSub("1 + %d" % k)
+    for mk, label in ((H3, "plain"), (new3, "listened")):
+        ex.append(("dyn-default/original-value/AdaptsTo/%s" % label, mk, dyn_default("ada"), adaptable))
+        ex.append(("dyn-default/original-value/AdaptsTo/%s<-provides" % label, mk, dyn_default("ada"), foo))
+        ex.append(("dyn-default/original-value/Expression/%s" % label, mk, dyn_default("expr"), strsub))
+        ex.append(("dyn-default/Supports/%s" % label, mk, dyn_default("sup"), adaptable))
 
     def clone_and_copy(h, s):
         h.x = s
